@@ -677,3 +677,74 @@ Example C01_stray_heal_computed :
   | None => false
   end = true.
 Proof. vm_compute. reflexivity. Qed.
+
+(* the FULL premises of the pipeline theorems - the invariant included - hold in [ex_added] and [ex_deleted]: the events
+   of the logged run after the launch, and the canonical rounds after it, satisfy the hypothesis on the random source
+   (fresh ids), so C01_inv applies *)
+Definition ex_events : list event := omap ev_of (drop ex_launch_len ex_trace).
+
+Example C01_pipeline_inv_computed :
+  match ex_launched, ex_final with
+  | Some st0, Some st1 =>
+    init_okb st0 && fresh_runb ex_params st0 ex_events && bool_decide (steps ex_params st0 ex_events = Some st1)
+    && canon_freshb ex_params (fun _ => true) 2 (fun i _ => 1000 + N.of_nat i) 3 st1
+    && match canon_run ex_params (fun _ => true) 2 (fun i _ => 1000 + N.of_nat i) 3 st1 with
+       | Some (_, st2) =>
+         match steps ex_params st2 [ERestart 1] with
+         | Some st3 => canon_freshb ex_params (fun _ => true) 2 (fun i _ => 2000 + N.of_nat i) 1 st3
+         | None => false
+         end
+       | None => false
+       end
+  | _, _ => false
+  end = true.
+Proof. vm_compute. reflexivity. Qed.
+
+Example C01_final_inv : exists st, ex_final = Some st /\ LoopInv st.
+Proof.
+  pose proof C01_pipeline_inv_computed as H. destruct ex_launched as [st0|]; [|discriminate H]. destruct ex_final as [st1|]; [|discriminate H].
+  apply andb_true_iff in H as [H _]. apply andb_true_iff in H as [H _]. apply andb_true_iff in H as [H H3].
+  apply andb_true_iff in H as [H1 H2]. apply bool_decide_eq_true in H3.
+  exists st1. split; [reflexivity|].
+  destruct (run_inv ex_params ex_events st0 (init_inv _ (init_okb_sound _ H1)) (fresh_runb_sound _ _ _ H2)) as (st' & E' & HI).
+  congruence.
+Qed.
+
+(* in both states Drummer's view is behind the membership *)
+Example C01_behind_computed :
+  match ex_added, ex_deleted with
+  | Some st, Some st' => negb (view_current st) && negb (view_current st')
+  | _, _ => false
+  end = true.
+Proof. vm_compute. reflexivity. Qed.
+
+Example C01_menda_inhabited : exists st, ex_added = Some st /\ MendA st /\ ~ Mend st.
+Proof.
+  destruct C01_final_inv as (st1 & Ef & HI1). pose proof C01_menda_computed as H. pose proof C01_behind_computed as Hb.
+  unfold ex_added in H, Hb |- *. rewrite Ef in H, Hb |- *.
+  destruct (steps ex_params st1 [ERestart 1]) as [st|] eqn:E; [|discriminate H].
+  apply andb_true_iff in H as [H _]. apply andb_true_iff in H as [H1 _].
+  assert (HI : LoopInv st) by exact (steps_inv ex_params [ERestart 1] st1 st HI1 eq_refl E).
+  exists st. split; [reflexivity|]. split; [exact (menda_restb_sound st HI H1)|].
+  intros HM. apply mend_view_current in HM. destruct ex_deleted; [|discriminate Hb]. rewrite HM in Hb. discriminate Hb.
+Qed.
+
+Example C01_deleted_inhabited : exists st, ex_deleted = Some st /\ MendA st /\ ~ Mend st.
+Proof.
+  destruct C01_final_inv as (st1 & Ef & HI1).
+  pose proof C01_pipeline_inv_computed as H. rewrite Ef in H. destruct ex_launched as [st0|]; [|discriminate H].
+  apply andb_true_iff in H as [H H5]. apply andb_true_iff in H as [_ H4].
+  pose proof C01_stray_computed as Hs. pose proof C01_behind_computed as Hb. unfold ex_deleted in Hs, Hb |- *.
+  rewrite Ef in Hs, Hb |- *.
+  destruct (canon_run ex_params (fun _ => true) 2 (fun i _ => 1000 + N.of_nat i) 3 st1) as [[os2 st2]|] eqn:E2; [|discriminate H5].
+  assert (HI2 : LoopInv st2) by (eapply canon_run_inv; [exact HI1|exact H4|exact E2]).
+  destruct (steps ex_params st2 [ERestart 1]) as [st3|] eqn:E3; [|discriminate H5].
+  assert (HI3 : LoopInv st3) by exact (steps_inv ex_params [ERestart 1] st2 st3 HI2 eq_refl E3).
+  destruct (canon_run ex_params (fun _ => true) 2 (fun i _ => 2000 + N.of_nat i) 1 st3) as [[os4 st]|] eqn:E4; [|discriminate Hs].
+  assert (HI4 : LoopInv st) by (eapply canon_run_inv; [exact HI3|exact H5|exact E4]).
+  exists st. split; [reflexivity|].
+  apply andb_true_iff in Hs as [Hs _]. apply andb_true_iff in Hs as [Hs _]. apply andb_true_iff in Hs as [Hs1 _].
+  split; [exact (menda_restb_sound st HI4 Hs1)|].
+  intros HM. apply mend_view_current in HM. destruct ex_added; [|discriminate Hb]. rewrite HM in Hb.
+  rewrite andb_false_r in Hb. discriminate Hb.
+Qed.
